@@ -121,4 +121,30 @@ theorem scatSlabFillNoOffset_not_isAdj :
   simp [Op.scatSlabFillNoOffset, slabScatter, slabGatherFillNoOffset, scatterAddDrop, gatherFill0, ip_eq, sumTo_eq,
     Finset.sum_range_succ, basis] at this
 
+/-! ### index maps (`Slice`, `Crop`, `Transpose`, `Reshape`, zero `Pad`; `Sum` is the scatter `Op.scatFill … 1`) -/
+
+theorem imap_isAdj (n m : Nat) (φ : Nat → Nat) : IsAdj (Op.imap (α := K) n m φ) := by
+  have h : Op.imap (α := K) n m φ = Op.herm (Op.scatFill m n φ (fun _ => 1)) := rfl
+  rw [h]
+  exact (isAdj_iff _).mpr (herm_isAdjW test_id ((isAdj_iff _).mp (scatFill_isAdj m n φ _ (fun _ => star_one K))))
+
+/-- zero padding by `lo` in front and `hi` behind: `φ j = j − lo` inside, out of range elsewhere -/
+def padMap (n lo : Nat) (j : Nat) : Nat := if lo ≤ j ∧ j < lo + n then j - lo else n
+
+/-- the adjoint of zero padding is cropping: `(Pad.adj y) i = y (lo + i)` -/
+theorem pad_adj_is_crop (n lo hi : Nat) (y : V K) (i : Nat) (hi' : i < n) :
+    (Op.imap (α := K) n (lo + n + hi) (padMap n lo)).adj y i = y (lo + i) := by
+  simp only [Op.imap, scatterAddDrop, hi', if_true, sumTo_eq, one_mul]
+  rw [Finset.sum_eq_single (lo + i)]
+  · simp [padMap, hi']
+  · intro j _ hj
+    have : padMap n lo j ≠ i := by
+      unfold padMap
+      split
+      · omega
+      · omega
+    simp [this]
+  · intro h
+    exact absurd (Finset.mem_range.mpr (by omega)) h
+
 end Scico.Adjoint
